@@ -475,7 +475,22 @@ func ruleNumToDo(c *chk.Ctx, d *dispatchModel) {
 	got := map[int]bool{}
 	for _, in := range incs {
 		var kinds []string
-		for _, cd := range ir.CondsAt(in.b.Block()) {
+		keep := func(cd ir.Cond) bool {
+			if known, _ := isErrNilOfTask(c, cd, nil); known {
+				return true
+			}
+			if call, ok := cd.V.(*ssa.Call); ok {
+				if g := call.Call.StaticCallee(); g != nil && isRequestNotificationPred(c, g) {
+					return true
+				}
+			}
+			return false
+		}
+		conds := ir.CondsAt(in.b.Block())
+		if alts := expandPredicateHelpersKeep(c, conds, 0, keep); len(alts) == 1 {
+			conds = ir.NormConds(alts[0])
+		}
+		for _, cd := range conds {
 			if known, isNil := isErrNilOfTask(c, cd, nil); known {
 				if isNil {
 					kinds = append(kinds, "err==nil")
@@ -550,7 +565,9 @@ func ruleDeliverAfterJoin(c *chk.Ctx, d *dispatchModel) {
 	var wait *ssa.Call
 	c.P.ExtInstrs(cl, func(ins ssa.Instruction) {
 		if call, ok := ins.(*ssa.Call); ok {
-			if id, ok := wgCall(call, "Wait"); ok && strings.HasPrefix(id, "local:") && c.P.IDominates(call, d.deliverCall) {
+			// the batch's own group: a local, or a field of a per-batch helper value — anything
+			// but the server's lifetime group and the notification barrier
+			if id, ok := wgCall(call, "Wait"); ok && id != chk.PathOfVar(c.M.Server, c.M.SWg).String() && id != chk.PathOfVar(c.M.Server, c.M.SNbar).String() && c.P.IDominates(call, d.deliverCall) {
 				wait = call
 			}
 		}
@@ -740,8 +757,16 @@ func ruleResponses(c *chk.Ctx, d *dispatchModel) {
 // append exactly when id == nil ∧ code ∉ {ParseError, InvalidRequest}.
 func ruleSkipPredicate(c *chk.Ctx, f *ssa.Function, ap *ssa.Call) {
 	// loop header: the block with the rangeindex phi that dominates the append
+	// (an append made by a helper — a builder type's method — is anchored at the helper's call
+	// in the response builder)
+	at := ssa.Instruction(ap)
+	if ap.Parent() != f {
+		if as := anchorsIn(c, ap, f); len(as) == 1 {
+			at = as[0]
+		}
+	}
 	var hdr *ssa.BasicBlock
-	for b := ap.Block(); b != nil; b = b.Idom() {
+	for b := at.Block(); b != nil; b = b.Idom() {
 		if ir.InCycle(b) && len(b.Instrs) > 0 {
 			if _, ok := b.Instrs[0].(*ssa.Phi); ok {
 				hdr = b
@@ -754,7 +779,7 @@ func ruleSkipPredicate(c *chk.Ctx, f *ssa.Function, ap *ssa.Call) {
 	}
 	// the paths of one iteration that bypass the append (in the builder itself, or in the
 	// helper whose result is appended), with the branch outcomes taken along each
-	avoid := ap.Block()
+	avoid := at.Block()
 	raw, exits := ir.IterationPathsAvoiding(hdr, avoid)
 	var alts [][]ir.Cond
 	for _, p := range raw {
@@ -1173,27 +1198,38 @@ func ruleSemSize(c *chk.Ctx) {
 			if fa, ok := u.X.(*ssa.FieldAddr); ok {
 				fv := ir.FieldVar(fa)
 				// must be on the ≥ 1 edge
-				ge1 := false
-				for _, cd := range ir.CondsAt(r.Block()) {
-					bo, ok := cd.V.(*ssa.BinOp)
-					if !ok {
-						continue
+				// (the guard may sit in a private predicate helper; every alternative under which
+				// the return is reached must establish it)
+				ge1 := true
+				alts := expandPredicateHelpers(c, ir.CondsAt(r.Block()), 0)
+				if len(alts) == 0 {
+					ge1 = false
+				}
+				for _, alt := range alts {
+					found := false
+					for _, cd := range alt {
+						x, y, op, isRel := ir.Rel(cd)
+						if !isRel {
+							continue
+						}
+						lu, ok := x.(*ssa.UnOp)
+						if !ok {
+							continue
+						}
+						lfa, ok := lu.X.(*ssa.FieldAddr)
+						if !ok || ir.FieldVar(lfa) != fv {
+							continue
+						}
+						k, isC := ir.ConstInt(y)
+						if !isC {
+							continue
+						}
+						if (op == token.GEQ && k >= 1) || (op == token.GTR && k >= 0) {
+							found = true
+						}
 					}
-					lu, ok := bo.X.(*ssa.UnOp)
-					if !ok {
-						continue
-					}
-					lfa, ok := lu.X.(*ssa.FieldAddr)
-					if !ok || ir.FieldVar(lfa) != fv {
-						continue
-					}
-					k, isC := ir.ConstInt(bo.Y)
-					if !isC {
-						continue
-					}
-					switch {
-					case bo.Op == token.LSS && !cd.Truth && k >= 1, bo.Op == token.GEQ && cd.Truth && k >= 1, bo.Op == token.GTR && cd.Truth && k >= 0, bo.Op == token.LEQ && !cd.Truth && k >= 0:
-						ge1 = true
+					if !found {
+						ge1 = false
 					}
 				}
 				if ge1 {
@@ -1740,12 +1776,30 @@ func ruleBatchOrder(c *chk.Ctx) {
 	})
 	filters, okApp := 0, len(apps) >= 1
 	var filterBlock *ssa.BasicBlock
+	inLoop := func(ins ssa.Instruction) bool {
+		for depth := 0; depth < 5; depth++ {
+			if ir.InCycle(ins.Block()) {
+				return true
+			}
+			f := ins.Parent()
+			if f == send {
+				return false
+			}
+			site, ok := c.P.SoleCaller(f)
+			if !ok {
+				return false
+			}
+			ins = site.Instr
+		}
+		return false
+	}
+	var filterAnchor ssa.Instruction
 	for _, ap := range apps {
-		if !ir.InCycle(ap.Block()) {
+		if !inLoop(ap) {
 			okApp = false
 		}
 		gov, other := false, false
-		for _, cd := range ir.CondsAt(ap.Block()) {
+		for _, cd := range c.P.CondsWithin(ap, send) {
 			if x, y, op, ok := ir.Rel(cd); ok {
 				sx, isX := constString(x)
 				sy, isY := constString(y)
@@ -1770,11 +1824,20 @@ func ruleBatchOrder(c *chk.Ctx) {
 			other = true
 		}
 		if gov {
-			// several collections filled in lock step (same block) count as one filter
-			if filterBlock == nil || filterBlock != ap.Block() {
+			// several collections filled in lock step (same block, or the same helper call) count
+			// as one filter
+			anchor := ssa.Instruction(ap)
+			for depth := 0; depth < 5 && anchor.Parent() != send; depth++ {
+				site, ok := c.P.SoleCaller(anchor.Parent())
+				if !ok {
+					break
+				}
+				anchor = site.Instr
+			}
+			if filterBlock == nil || (filterBlock != ap.Block() && filterAnchor != anchor) {
 				filters++
 			}
-			filterBlock = ap.Block()
+			filterBlock, filterAnchor = ap.Block(), anchor
 		} else if other {
 			okApp = false
 		}
